@@ -151,6 +151,10 @@ def o_c12(ctx):
             if items == ["!panic"]:
                 out.append(v(ctx.c, f"{t}I panicked", ""))
                 continue
+            bad = [x for x in items if x.startswith("!")]
+            if bad:
+                out.append(v(ctx.c, f"byte-iterator {t}: the result depends on the source's size_hint (or a run panicked) on haystack {j}", " ".join(items)))
+                continue
             if j in a and strip_pulls(items) != a[j]:
                 out.append(v(ctx.c, f"byte-iterator {t} differs from the slice search on haystack {j}", f"{items} vs {a[j]}"))
             n = len(ctx.c.hays[int(j)])
